@@ -6,7 +6,7 @@ from vp.val import cN, cbool, clist, cpair
 from vp.util import VERIF
 
 # which model entry point mirrors the code under /repo
-MODEL_ENTRY = 'run_case_pre'
+MODEL_ENTRY = 'run_case'
 
 WIDTH = {4: 32, 6: 128}
 NBYTES = {4: 4, 6: 16}
